@@ -169,6 +169,9 @@ fn roots_family(ctx: &Ctx, tag: &str, cons: &Consensus, a: &[BlockView], b: &[Bl
         }
         report.states.insert(fp(&(tag, tip.hash().as_slice().to_vec())));
     }
+    if reorgs == 0 && report.violations.is_empty() {
+        return Err(format!("roots universe {tag}: the delivery order contains no reorganisation"));
+    }
     report.outcomes.insert(fp(&(tag, reorgs)));
     report.traces += 1;
     report.sample(json!({"family": "roots", "universe": tag, "a": a.len(), "b": b.len(), "reorgs": reorgs, "mmr_size_at_end": leaf_index_to_mmr_size(node.tip().number())}));
@@ -403,7 +406,7 @@ pub fn run(ctx: &Ctx) -> Report {
             set_time(time_for_height(40));
             let mut forge = Forge::new(&ctx.scratch.join("c19-forge-r"), &cons)?;
             let u = c18::build(&mut forge, &cons)?;
-            roots_family(ctx, "flat", &cons, &u.a, &u.b, None, &mut report)?;
+            roots_family(ctx, "flat", &cons, &u.a[..4], &u.b, None, &mut report)?;
             // B first as well: the reorg goes the other way
             roots_family(ctx, "flat-b-first", &cons, &u.b[..4], &u.a, None, &mut report)?;
             // there and back: a1..a3, b1..b4 (reorg), a4..a6 (reorg back onto already verified blocks)
@@ -412,8 +415,11 @@ pub fn run(ctx: &Ctx) -> Report {
         }
         if ctx.mine(1) || ctx.shards == 1 {
             let cons = crate::props::c01::dyn_world();
-            let (a, b) = crate::props::c01::dyn_branches(ctx, &cons, 6, 4)?;
-            roots_family(ctx, "dyn-shorter-heavier", &cons, &a, &b, None, &mut report)?;
+            // A: fast blocks (difficulty doubles from block 4), B: slow blocks (difficulty halves).
+            // B is delivered first up to height 7, then A: it overtakes although it is shorter.
+            let (a, b) = crate::props::c01::dyn_branches(ctx, &cons, 5, 6)?;
+            let order: Vec<BlockView> = std::iter::once(a[0].clone()).chain(b.iter().cloned()).chain(a[1..].iter().cloned()).collect();
+            roots_family(ctx, "dyn-shorter-heavier", &cons, &a, &b, Some(order), &mut report)?;
         }
         filters_family(ctx, &mut report)
     };
